@@ -1,4 +1,74 @@
-(* C20 theorems -- being grown; see Proofs/C20_*.v *)
-From EN Require Import Conc.FlowControl.
-Theorem placeholder_c20 : True. Proof. exact I. Qed.
-Print Assumptions placeholder_c20.
+(* C20 -- sending applies backpressure and never hangs on a dead connection.  Statements only; proofs in Proofs/C20_*.v. *)
+From Coq Require Import List Arith Bool.
+From EN Require Import Conc.FlowControl Proofs.C20_flow.
+Import ListNotations.
+
+(* WriteFlowControl, every label sequence (drain / pause / resume / connection_lost / is_closing / cancel of ANY parked
+   sender at ANY time / done-callbacks and wake-ups in any order).  `task s t` is the state of task t. *)
+
+(* resume_writing completes EVERY parked sender normally (its wake-up is enabled and returns), touches nobody else,
+   and leaves the deque to the done-callbacks *)
+Theorem all_waiters_resumed :
+  forall (n : nat) (ls : list wlabel) (s : wfc), wfc_run (wfc_init n) ls = Some s ->
+    (forall t f, task s t = Some (TParked f FPending) ->
+       task (wfc_resume s) t = Some (TParked f FResult) /\
+       wfc_step (wfc_resume s) (WWake t) = Some (set_task t TIdle (wfc_resume s), [ODrain t ROk])) /\
+    (forall t x, task s t = Some x -> (forall f, x <> TParked f FPending) -> task (wfc_resume s) t = Some x) /\
+    w_deque (wfc_resume s) = w_deque s.
+Proof. exact all_waiters_resumed_proof. Qed.
+Print Assumptions all_waiters_resumed.
+
+(* ... and none before: a pending waiter gets a normal result from resume_writing only (any state, any label) *)
+Theorem resumed_only_by_resume :
+  forall (s : wfc) (l : wlabel) (s' : wfc) (o : list wobs) (t : tid) (f : fid), wfc_step s l = Some (s', o) ->
+    task s t = Some (TParked f FPending) -> task s' t = Some (TParked f FResult) -> l = WResume.
+Proof. exact resumed_only_by_resume_proof. Qed.
+Print Assumptions resumed_only_by_resume.
+
+(* connection_lost(exc) fails EVERY parked sender: with the connection's exception if there is one, else with
+   OSError(connection_lost_errno); afterwards nobody is parked *)
+Theorem all_waiters_failed_on_loss :
+  forall (n : nat) (ls : list wlabel) (s : wfc) (e : bool), wfc_run (wfc_init n) ls = Some s ->
+    (forall t f, task s t = Some (TParked f FPending) ->
+       task (wfc_lost e s) t = Some (TParked f (FExc e)) /\
+       wfc_step (wfc_lost e s) (WWake t)
+         = Some (set_task t TIdle (wfc_lost e s), [ODrain t (if e then RConnExc else RErrno)])) /\
+    (forall t f, task (wfc_lost e s) t <> Some (TParked f FPending)).
+Proof. exact all_waiters_failed_on_loss_proof. Qed.
+Print Assumptions all_waiters_failed_on_loss.
+
+(* cancelling one suspended sender: only that task changes (it will get CancelledError), deque and flags are
+   untouched, and every other parked sender is still completed by the next resume_writing / failed by the next
+   connection_lost *)
+Theorem cancel_one_keeps_others :
+  forall (n : nat) (ls : list wlabel) (s : wfc) (t : tid) (s' : wfc) (o : list wobs),
+    wfc_run (wfc_init n) ls = Some s -> wfc_step s (WCancel t) = Some (s', o) ->
+    (forall u, u <> t -> task s' u = task s u) /\
+    w_deque s' = w_deque s /\ w_paused s' = w_paused s /\ w_lost s' = w_lost s /\
+    (exists r, wfc_step s' (WWake t) = Some (r, [ODrain t RCancelled])) /\
+    (forall u f, u <> t -> task s u = Some (TParked f FPending) ->
+       task (wfc_resume s') u = Some (TParked f FResult) /\
+       (forall e, task (wfc_lost e s') u = Some (TParked f (FExc e)))).
+Proof. exact cancel_one_keeps_others_proof. Qed.
+Print Assumptions cancel_one_keeps_others.
+
+(* the deque has no duplicates; a pending waiter is in it (so it can be woken), only while writing is paused and the
+   connection is not lost; no future is awaited by two tasks; every other entry of the deque is a finished future
+   whose done-callback is enabled and removes exactly that entry: nothing leaks, nothing is stranded *)
+Theorem no_waiter_leak :
+  forall (n : nat) (ls : list wlabel) (s : wfc), wfc_run (wfc_init n) ls = Some s ->
+    NoDup (w_deque s) /\
+    (forall t f, task s t = Some (TParked f FPending) -> In f (w_deque s) /\ w_paused s = true /\ w_lost s = false) /\
+    (forall t u f st st', task s t = Some (TParked f st) -> task s u = Some (TParked f st') -> t = u) /\
+    (forall f, In f (w_deque s) ->
+       (exists t, task s t = Some (TParked f FPending)) \/
+       (exists s', wfc_step s (WCallback f) = Some (s', []) /\ w_deque s' = remove_fid f (w_deque s) /\
+                   ~ In f (w_deque s') /\ w_tasks s' = w_tasks s)).
+Proof. exact no_waiter_leak_proof. Qed.
+Print Assumptions no_waiter_leak.
+
+(* non-vacuity: two parked senders, one cancelled, the other resumed *)
+Example flow_run_example :
+  exists s, wfc_run (wfc_init 2) [WPause; WDrain 0; WDrain 1; WCancel 0; WResume; WCallback 0; WWake 0; WCallback 1] = Some s
+            /\ w_deque s = [] /\ task s 1 = Some (TParked 1 FResult) /\ task s 0 = Some TIdle.
+Proof. eexists. split; [vm_compute; reflexivity|]. repeat split. Qed.
